@@ -15,7 +15,7 @@ ViewOf(u) == CASE u = "view_settings" -> "settings" [] u = "view_settings_by_ind
 \* what a use returns, as a function of what it can observe of the configuration
 ResultOf(u, o) == CASE u \in {"profile"} -> <<"profile", o.recover, o.request, o.postreq>>
                     [] u \in {"decoder_rsa", "decoder_aes", "decoder_rand", "client"} -> <<"decoder", o.recover + 1, o.request, o.postreq>>
-                    [] u \in {"transform_get", "recover_get", "transform_post"} -> <<"traffic", o.request, o.postreq>>
+                    [] u \in {"transform_get", "recover_get", "transform_post", "session_rsa"} -> <<"traffic", o.request, o.postreq>>
                     [] u = "mutate" -> <<"TypeError">>
                     [] OTHER -> <<"view", o.recover, o.request, o.postreq>>
 Init == hist = <<>> /\ obs = Obs0 /\ cached = {} /\ result = <<>>
@@ -23,7 +23,7 @@ Use(u) == /\ Len(hist) < MaxLen
           /\ hist' = Append(hist, u)
           /\ result' = ResultOf(u, obs)
           /\ cached' = cached \cup {ViewOf(u)}
-          /\ obs' = IF ORIGINAL /\ u \in {"decoder_rsa", "decoder_aes", "decoder_rand", "client", "transform_get", "recover_get", "transform_post"}
+          /\ obs' = IF ORIGINAL /\ u \in {"decoder_rsa", "decoder_aes", "decoder_rand", "client", "transform_get", "recover_get", "transform_post", "session_rsa"}
                     THEN [obs EXCEPT !.recover = @ + 1] ELSE obs
 Next == \E u \in Uses : Use(u)
 Spec == Init /\ [][Next]_vars
